@@ -170,7 +170,7 @@ def step (line : String) : String :=
         | some b => s!"{id} DISAGREE {b}"
         | none =>
           let targets := (qs.filterMap fun | .list [d, _, b, _] => (do let d ← decDate d; let b ← b.str?; pure (d, b)) | _ => none)
-          let steps := (targets.take 8).foldl (fun m db => max m (stepsNeeded w db.1 db.2)) 0
+          let steps := (targets.reverse.take 40).foldl (fun m db => max m (stepsNeeded w db.1 db.2)) 0
           s!"{id} agree q={tally.n} ties={tally.ties} inexact={tally.inexact} maxsteps={steps}"
     | _, _, _ => s!"{id} undecodable"
   | _, _, _, _ => s!"{id} bad-case"
